@@ -6,8 +6,8 @@ from hypothesis import strategies as st
 DUR = [0.01, 0.05, 0.09, 0.1, 0.11, 0.25, 0.5, 1.0]
 SHORT = [0.01, 0.05, 0.09, 0.1, 0.11, 0.25]
 
-ASYNC_KINDS = ['async', 'async', 'async', 'amethod', 'acmethod']
-SYNC_KINDS = ['sync', 'sync', 'method', 'cmethod', 'smethod']
+ASYNC_KINDS = ['async', 'async', 'async', 'amethod', 'acmethod', 'abusmeth']
+SYNC_KINDS = ['sync', 'sync', 'method', 'cmethod', 'smethod', 'busmeth']
 
 
 class Profile:
@@ -35,7 +35,7 @@ class Profile:
         self.ops = ['sleep', 'sleep', 'yield', 'disp', 'disp', 'disp', 'awaitall']
         self.modes = ['await', 'await', 'later', 'ff']
         self.raises = 0.0
-        self.raise_kinds = ['VE', 'custom', 'KE', 'RT']
+        self.raise_kinds = ['VE', 'custom', 'KE', 'RT', 'chain']
         self.readbus = 0.0
         self.xp = 0.0
         self.rets = ['idx', 'idx', 'none', 'str']
@@ -140,6 +140,8 @@ def scenario(draw, p: Profile):
                 pat = level
             prog = draw(handler_prog(p, nb, 0 if wildcard else level, maxdepth, is_async, wildcard))
             h = {'bus': bi, 'pat': pat, 'kind': kind, 'prog': prog, 'ret': draw(st.sampled_from(p.rets))}
+            if kind in ('busmeth', 'abusmeth'):
+                h['owner'] = draw(st.integers(0, nb - 1))  # the bus instance the method is bound to (often the bus it is registered on)
             if p.cleanup and is_async and chance(draw, p.cleanup):
                 h['cleanup'] = draw(st.sampled_from(p.cleanup_durs))
             if p.dual and nb > 1 and chance(draw, p.dual):
